@@ -350,6 +350,19 @@ def run(ctx: Context, rep) -> None:
                         it.args) == 1 and len(n.generators) == 1 and \
                     not n.generators[0].ifs:
                 started = it.args[0]
+    if started is None:
+        # the explicit form: for _ in range(N): collectors.append(Collector(..))
+        for n in imap.body_nodes():
+            if isinstance(n, ast.For) and not n.orelse and isinstance(
+                    n.iter, ast.Call) and isinstance(
+                        n.iter.func, ast.Name) and n.iter.func.id == "range" \
+                    and len(n.iter.args) == 1 and len(n.body) == 1 and any(
+                        isinstance(c_, ast.Call) and ctx.is_call(
+                            imap, c_, f"{LP}.Collector")
+                        for c_ in ast.walk(n.body[0])) and not any(
+                            isinstance(x, (ast.If, ast.Break, ast.Continue))
+                            for x in ast.walk(n)):
+                started = n.iter.args[0]
     starts = [c for c in imap.calls() if isinstance(c.func, ast.Attribute) and
               c.func.attr == "start"]
     active_init = None
